@@ -453,6 +453,11 @@ fn simplify_all<const N: usize, const M: usize>(
     let mut results = vec![];
     let mut ws = Default::default();
     let mut storage: Option<VmData<M>> = None;
+    if reuse {
+        // give the workspace and the storage a history: a larger function with
+        // many live values (it spills at small budgets) was simplified before
+        storage = Some(dirty_history::<M>(&mut ws));
+    }
     for t in all_traces(k) {
         let trace = VmTrace::from(t.clone());
         let st = if reuse { storage.take().unwrap_or_default() } else { Default::default() };
@@ -490,7 +495,8 @@ fn mode_simplify(args: &[String]) {
     let stride: u64 = args.get(2).map(|s| s.parse().unwrap()).unwrap_or(1);
     let offset: u64 = args.get(3).map(|s| s.parse().unwrap()).unwrap_or(0);
     let budget = args.get(4).map(|s| s.as_str()).unwrap_or("255-255").to_string();
-    let reuse = args.get(5).map(|s| s == "reuse").unwrap_or(false);
+    let reuse = args.get(5).map(|s| s.starts_with("reuse")).unwrap_or(false);
+    let spill_only = reuse && args.get(5).map(|s| s == "reuse-spill").unwrap_or(false);
     let replay_id: Option<u64> = args.get(6).map(|s| s.parse().unwrap());
     let replay_vecs: Vec<Vec<f32>> = args
         .get(7)
@@ -510,6 +516,55 @@ fn mode_simplify(args: &[String]) {
     let mut out = std::io::BufWriter::new(stdout.lock());
     let mut id = 0u64;
     let mut count = 0u64;
+    if args.get(5).map(|s| s == "reuse-wide").unwrap_or(false) {
+        // parents with many simultaneously live values (they spill at a
+        // budget of 3): n terms t_i = x*c_i - y, all computed before a
+        // right-nested reduction with operators taken from a base-3 pattern
+        for n in 3..=5usize {
+            for pat in 0..3usize.pow(n as u32 - 1) {
+                let mut ctx = Context::new();
+                let x = ctx.x();
+                let y = ctx.y();
+                let terms: Vec<Node> = (0..n)
+                    .map(|i| {
+                        let m = ctx.mul(x, (i + 2) as f32).unwrap();
+                        ctx.sub(m, y).unwrap()
+                    })
+                    .collect();
+                let mut acc = terms[n - 1];
+                let mut pp = pat;
+                for i in (0..n - 1).rev() {
+                    acc = match pp % 3 {
+                        0 => ctx.min(terms[i], acc).unwrap(),
+                        1 => ctx.max(terms[i], acc).unwrap(),
+                        _ => ctx.sub(terms[i], acc).unwrap(),
+                    };
+                    pp /= 3;
+                }
+                // the terms stay live: they are also summed after the reduction
+                let mut sum = terms[0];
+                for t in &terms[1..] {
+                    sum = ctx.add(sum, *t).unwrap();
+                }
+                let roots = [acc, sum];
+                id += 1;
+                let p = GenericVmFunction::<3>::new(&ctx, &roots).unwrap();
+                if p.choice_count() == 0 || p.choice_count() > 4 {
+                    continue;
+                }
+                if let Some(rid) = replay_id {
+                    if rid == id {
+                        replay_reuse(&p, &replay_vecs, args.get(8).map(|s| s.as_str()).unwrap_or(""));
+                    }
+                    continue;
+                }
+                let parent = dump_vm(p.data());
+                let res = simplify_all::<3, 3>(&p, 1, &mut out, true);
+                writeln!(out, "{{\"id\":{},\"k\":{},\"budget\":\"3-3\",\"reuse\":true,\"parent\":{},\"children\":{}}}", id, n, parent, res).unwrap();
+            }
+        }
+        return;
+    }
     for k in kmin..=kmax {
         let mut f = |g: &[GNode]| {
             // only graphs with at least one choice op are interesting
@@ -538,6 +593,9 @@ fn mode_simplify(args: &[String]) {
                     ($n:expr, $m:expr) => {{
                         let p = GenericVmFunction::<$n>::new(&ctx, &roots).unwrap();
                         if p.choice_count() == 0 || p.choice_count() > 4 {
+                            return;
+                        }
+                        if spill_only && !p.data().iter_asm().any(|o| matches!(o, fidget_core::compiler::RegOp::Load(..))) {
                             return;
                         }
                         if let Some(rid) = replay_id {
@@ -829,6 +887,102 @@ fn ex_eval(e: &Ex, x: f32, y: f32) -> (f32, bool) {
             let (b, fb) = ex_eval(b, x, y);
             let v = op.eval(a, b);
             (v, fa && fb && v.is_finite())
+        }
+    }
+}
+
+
+/// Simplifies a fixed, larger function (12 live values, two choice clauses)
+/// with the given workspace and returns its data for recycling as storage
+fn dirty_history<const M: usize>(ws: &mut fidget_core::vm::VmWorkspace<M>) -> VmData<M> {
+    let mut ctx = Context::new();
+    let x = ctx.x();
+    let y = ctx.y();
+    let mut terms = vec![];
+    for i in 0..6 {
+        let a = ctx.mul(x, (i + 2) as f32).unwrap();
+        let b = ctx.sub(y, (i + 1) as f32).unwrap();
+        terms.push(ctx.min(a, b).unwrap());
+    }
+    let mut acc = terms[0];
+    for t in &terms[1..] {
+        acc = ctx.sub(acc, *t).unwrap();
+    }
+    let acc2 = ctx.max(acc, x).unwrap();
+    let f = GenericVmFunction::<M>::new(&ctx, &[acc2, terms[3]]).unwrap();
+    let trace: Vec<Choice> = (0..f.choice_count()).map(|i| if i % 3 == 0 { Choice::Left } else { Choice::Both }).collect();
+    let child = f.simplify_with::<M>(&VmTrace::from(trace), Default::default(), ws).unwrap();
+    child.recycle().unwrap()
+}
+
+
+/// Replay of a reuse finding through the public API: repeats the history of
+/// `simplify_all` (workspace with a history, storage recycled from the previous
+/// child) up to the target trace, then compares that child with the parent at
+/// every given point whose real point trace is compatible with the target.
+fn replay_reuse(p: &GenericVmFunction<3>, vecs: &[Vec<f32>], target: &str) {
+    let k = p.choice_count();
+    let mut ws = Default::default();
+    let mut storage: Option<VmData<3>> = Some(dirty_history::<3>(&mut ws));
+    let mut child = None;
+    for t in all_traces(k) {
+        let ts = trace_str(&t);
+        let st = storage.take().unwrap_or_default();
+        let r = std::panic::catch_unwind(std::panic::AssertUnwindSafe(|| p.simplify_with::<3>(&VmTrace::from(t.clone()), st, &mut ws)));
+        match r {
+            Ok(Ok(c)) => {
+                if ts == target {
+                    child = Some(c);
+                    break;
+                }
+                storage = c.recycle();
+            }
+            _ => {
+                if ts == target {
+                    println!("{{\"ok\":false,\"trace\":\"{}\",\"panic\":\"simplify failed with reused objects\"}}", ts);
+                    return;
+                }
+                ws = Default::default();
+            }
+        }
+    }
+    let Some(child) = child else {
+        println!("{{\"ok\":true,\"note\":\"target trace not found\"}}");
+        return;
+    };
+    let f = |v: &[f32]| v.iter().map(|x| fmt_f32(*x)).collect::<Vec<_>>().join(" ");
+    for v in vecs {
+        let mut args = vec![0.0f32; p.vars().len()];
+        for (var, i) in p.vars().iter() {
+            args[i] = match var {
+                Var::X => v[0],
+                Var::Y => v[1],
+                _ => 0.0,
+            };
+        }
+        let t = p.point_tape(Default::default());
+        let mut e = GenericVmFunction::<3>::new_point_eval();
+        let (o, tr) = e.eval(&t, &args).unwrap();
+        let want = o.to_vec();
+        let real = match tr {
+            Some(t) => trace_str(t.as_slice()),
+            None => "B".repeat(k),
+        };
+        if !real.chars().zip(target.chars()).all(|(r, t)| t == 'B' || t == r) {
+            continue;
+        }
+        let r = std::panic::catch_unwind(std::panic::AssertUnwindSafe(|| {
+            let t = child.point_tape(Default::default());
+            let mut e = GenericVmFunction::<3>::new_point_eval();
+            let (o, _) = e.eval(&t, &args).unwrap();
+            o.to_vec()
+        }));
+        match r {
+            Ok(got) => {
+                let ok = got.len() == want.len() && got.iter().zip(&want).all(|(a, b)| same(*a, *b));
+                println!("{{\"ok\":{},\"vars\":\"{}\",\"trace\":\"{}\",\"parent\":\"{}\",\"child_reused\":\"{}\"}}", ok, f(&args), target, f(&want), f(&got));
+            }
+            Err(pn) => println!("{{\"ok\":false,\"vars\":\"{}\",\"trace\":\"{}\",\"panic\":\"{}\"}}", f(&args), target, panic_msg(pn)),
         }
     }
 }
